@@ -301,12 +301,12 @@ def lda_xc_ksdt_spin(
 
     # Generic derivatives
     drsdn = -(6 ** (1 / 3)) * (1 / n) ** (1 / 3) / (6 * math.pi ** (1 / 3) * n)
-    dzetadn_up = -zeta / n**2 + 1 / n
-    dzetadn_dw = -zeta / n**2 - 1 / n
+    dzetadn_up = -zeta / n + 1 / n
+    dzetadn_dw = -zeta / n - 1 / n
 
     # fxc derivatives
-    dfxc0drs = _get_dfxc_zetadrs(rs, zeta0theta)
-    dfxc1drs = _get_dfxc_zetadrs(rs, zeta1theta)
+    dfxc0drs = _get_dfxc_zetadrs(rs, zeta0theta0)
+    dfxc1drs = _get_dfxc_zetadrs(rs, zeta1theta1)
     dfxc0dtheta0 = _get_dfxc_zetadtheta(rs, zeta0theta0)
     dfxc1dtheta1 = _get_dfxc_zetadtheta(rs, zeta1theta1)
 
@@ -318,7 +318,7 @@ def lda_xc_ksdt_spin(
     # theta derivatives
     dthetadn_up = _get_dthetadn_up(T, n_up)
     dtheta0dtheta = _get_dtheta0dtheta(zeta)
-    dtheta0dzeta = _get_dtheta0dzeta(theta0, zeta)
+    dtheta0dzeta = _get_dtheta0dzeta(theta, zeta)
     dtheta1dtheta0 = _get_dtheta1dtheta0()
 
     # Calculate vxc_up (using dndn_up=1)
@@ -328,7 +328,11 @@ def lda_xc_ksdt_spin(
     dfxc1b_up = (
         dfxc1dtheta1 * dtheta1dtheta0 * (dtheta0dtheta * dthetadn_up + dtheta0dzeta * dzetadn_up)
     )
-    dphi_up = dphidtheta * dthetadn_up + dphidzeta * dzetadn_up + dphidrs * drsdn  # * dndn_up = 1
+    dphi_up = (
+        dphidtheta * (dtheta0dtheta * dthetadn_up + dtheta0dzeta * dzetadn_up)
+        + dphidzeta * dzetadn_up
+        + dphidrs * drsdn  # * dndn_up = 1
+    )
     vxc_up = (
         dfxc0a
         + dfxc0b_up
@@ -342,8 +346,10 @@ def lda_xc_ksdt_spin(
     # dfxc0b += dfxc0dtheta0 * dtheta0dtheta * dthetadn_dw
     dfxc1b_dw = dfxc1dtheta1 * dtheta1dtheta0 * dtheta0dzeta * dzetadn_dw
     # dfxc1b += dfxc1dtheta1 * dtheta1dtheta0 * dtheta0dtheta * dthetadn_dw
-    dphi_dw = dphidzeta * dzetadn_dw + dphidrs * drsdn  # * dndn_dw = 1
-    # dfxc1b += dphidtheta * dthetadn_dw
+    dphi_dw = (
+        dphidtheta * dtheta0dzeta * dzetadn_dw + dphidzeta * dzetadn_dw + dphidrs * drsdn
+    )  # * dndn_dw = 1
+    # dphi_dw += dphidtheta * dtheta0dtheta * dthetadn_dw
     vxc_dw = (
         dfxc0a
         + dfxc0b_dw
